@@ -16,7 +16,7 @@ ID = "C01"
 TITLE = "Bottleneck distance is the true min-max matching cost"
 CASE_TIMEOUT_S = 120.0
 PLAN = {
-    "quick": {"runs": 6400, "chunk": 50, "shrink_s": 30.0},
+    "quick": {"runs": 16000, "chunk": 50, "shrink_s": 30.0},
     "thorough": {"budget_s": 600.0, "chunk": 40, "shrink_s": 60.0},
 }
 RULE = ("case = pair of generated diagrams (sizes 0..4 enumeration tier, 0..40 quick / 0..150 thorough "
